@@ -18,6 +18,8 @@
   correspondence (read scripts, buffer sizes 1…4096) + oracle.
 -/
 import SF.Proofs.CborDecReaderTop
+import SF.Proofs.UbjDecTop
+import SF.Proofs.JsonDecTop
 namespace SF.Props.C18
 open SF SF.Cbor SF.Cbor.Cst SF.Cbor.Parse SF.Cbor.Dec SF.Cbor.DecR
 
@@ -102,3 +104,189 @@ example :
   decide +kernel
 
 end SF.Props.C18
+
+
+/-! ## UBJSON decoder (mirror SF/Ubjson/Dec.lean; proofs SF/Proofs/UbjDec{Base,Until,Next,Stack,Reader,Any,Bytes,Top}.lean)
+
+The parser mirror grants a FUEL per buffer it is handed (`8·|buffer| + 2000000` iterations; the Go
+loop has none).  For the reader-driven decoder this makes the fuel depend on how the bytes are cut,
+so the reader theorems carry a side condition on the cost of each item (`vcost`, at most
+`3·|wire| + 2·(payload-free typed elements)`; `cheap_of_size`) — shown necessary for the mirror by
+an evaluated counterexample (a typed array of 10^6 nulls nested ten deep, SF/Proofs/UbjDecTop.lean).
+The byte-slice theorem needs only `free ≤ 10^6` as the parser theorems do. -/
+
+namespace SF.PropsUbjD.C18
+open SF SF.Ubjson SF.Ubjson.Parse SF.Ubjson.Dec SF.Ubjson.Syn SF.Ubjson.DecR
+
+/-- C18 for the UBJSON BYTE-SLICE decoder: for EVERY stream of k grammatical items — no-ops
+before each and at the end —, k calls to Next succeed, the events accumulated after the i-th
+being exactly those of the first i items, and the (k+1)-th call reports io.EOF -/
+theorem ubj_bytes_decoder_stream (xs : List (Nat × Item)) (trail : Nat)
+    (hok : okElems xs = true) (hfree : ∀ nx ∈ xs, free nx.2 ≤ 1000000) :
+    nexts (xs.length + 1) (newBytesDecoder (wireStream xs trail)) =
+      (List.range xs.length).map (fun i => (NextRes.ok, evElems (xs.take (i + 1)))) ++
+        [(NextRes.eof, evElems xs)] :=
+  SF.Props.UbjDec.bytes_decoder_stream_nextFuel xs trail hok hfree
+
+/-- C18 for the READER-DRIVEN UBJSON decoder.  For EVERY stream of grammatical items, EVERY script
+`cs` of chunks with that concatenation (empty chunks = `(0, nil)` reads anywhere), BOTH values of
+`lastEOF` (data arriving together with io.EOF), EVERY buffer size ≥ 1 and any sufficient loop
+fuel: one successful call per item with exactly its events, then `.eof`.  The trace mentions
+neither `cs` nor `lastEOF` nor `bufsize`. -/
+theorem ubj_reader_decoder_stream (f : Dec → Nat) (hf : Enough f) (xs : List (Nat × Item)) (trail : Nat)
+    (hok : okElems xs = true) (hc : ∀ nx ∈ xs, nx.1 + vcost nx.2 + 2 ≤ 2000000) (ht : trail + 2 ≤ 2000000)
+    (cs : List Bytes) (lastEOF : Bool) (bufsize : Nat) (hbs : 1 ≤ bufsize)
+    (hcs : cs.flatten = wireStream xs trail) :
+    nextsF f (xs.length + 1) (newDecoder cs lastEOF bufsize) =
+      (List.range xs.length).map (fun i => (NextRes.ok, evElems (xs.take (i + 1)))) ++
+        [(NextRes.eof, evElems xs)] :=
+  SF.Props.UbjDec.reader_decoder_stream f hf xs trail hok hc ht cs lastEOF bufsize hbs hcs
+
+theorem ubj_enough_nextFuel : Enough nextFuel := SF.Props.UbjDec.enough_nextFuel
+
+/-- the side condition in terms of sizes -/
+theorem ubj_cheap_of_size (n : Nat) (x : Item) (h : n + 3 * x.wire.length + 2 * free x + 1 ≤ 2000000) :
+    n + vcost x + 2 ≤ 2000000 :=
+  SF.Props.UbjDec.cheap_of_size n x h
+
+/-- C18, TRUNCATION: complete items followed — after no-ops — by a proper non-empty prefix of one
+more grammatical item, in ANY script / buffer size / `lastEOF`: after `xs.length` successful calls
+the next call returns an ERROR of the end-of-input check — not `.eof`, not `.ok` -/
+theorem ubj_reader_decoder_truncated (f : Dec → Nat) (hf : Enough f) (xs : List (Nat × Item))
+    (hok : okElems xs = true) (hc : ∀ nx ∈ xs, nx.1 + vcost nx.2 + 2 ≤ 2000000)
+    (n : Nat) (x : Item) (hx : x.ok = true) (hcx : n + vcost x + 2 ≤ 2000000) (k : Nat) (hk0 : 0 < k)
+    (hk : k < x.wire.length)
+    (cs : List Bytes) (lastEOF : Bool) (bufsize : Nat) (hbs : 1 ≤ bufsize)
+    (hcs : cs.flatten = wireElems xs ++ (noops n ++ x.wire.take k)) :
+    ∃ e evs, (e = .incomplete ∨ e = .missingArrEnd ∨ e = .missingObjEnd) ∧
+      nextsF f (xs.length + 1) (newDecoder cs lastEOF bufsize) =
+        (List.range xs.length).map (fun i => (NextRes.ok, evElems (xs.take (i + 1)))) ++ [(NextRes.err e, evs)] :=
+  SF.Props.UbjDec.reader_decoder_truncated f hf xs hok hc n x hx hcx k hk0 hk cs lastEOF bufsize hbs hcs
+
+/-- `Decoder.Next` NEVER PANICS: ANY bytes in ANY script with ANY buffer size and fuel -/
+theorem ubj_next_never_panics (f : Dec → Nat) (cs : List Bytes) (lastEOF : Bool) (bufsize : Nat) (n : Nat) :
+    ∀ y ∈ nextsF f n (newDecoder cs lastEOF bufsize), y.1 ≠ .err .panic :=
+  SF.Props.UbjDec.next_never_panics f cs lastEOF bufsize n
+
+/-- the loop of `Decoder.Next` terminates on ANY bytes: any two sufficient loop fuels give the same
+trace (an `outOfFuel` in a trace is only ever the parser's per-buffer fuel: event floods) -/
+theorem ubj_nexts_loop_fuel_irrelevant (f₁ f₂ : Dec → Nat) (hf₁ : Enough f₁) (hf₂ : Enough f₂) (cs : List Bytes)
+    (lastEOF : Bool) (bufsize : Nat) (hbs : 1 ≤ bufsize) (n : Nat) :
+    nextsF f₁ n (newDecoder cs lastEOF bufsize) = nextsF f₂ n (newDecoder cs lastEOF bufsize) :=
+  SF.Props.UbjDec.nexts_loop_fuel_irrelevant f₁ f₂ hf₁ hf₂ cs lastEOF bufsize hbs n
+
+/-- READ SIZES DO NOT MATTER, for ARBITRARY bytes (valid, invalid or truncated): any two scripts
+with the same concatenation — any buffer sizes ≥ 1, any `lastEOF` flags — give the same sequence
+of `Next` results and accumulated events, provided neither trace contains the model's `outOfFuel` -/
+theorem ubj_reader_chunking_independent (f : Dec → Nat) (hf : Enough f) (cs₁ cs₂ : List Bytes)
+    (e₁ e₂ : Bool) (n₁ n₂ : Nat) (hn₁ : 1 ≤ n₁) (hn₂ : 1 ≤ n₂) (h : cs₁.flatten = cs₂.flatten) (n : Nat)
+    (hno₁ : ∀ y ∈ nextsF f n (newDecoder cs₁ e₁ n₁), y.1 ≠ .err .outOfFuel)
+    (hno₂ : ∀ y ∈ nextsF f n (newDecoder cs₂ e₂ n₂), y.1 ≠ .err .outOfFuel) :
+    nextsF f n (newDecoder cs₁ e₁ n₁) = nextsF f n (newDecoder cs₂ e₂ n₂) :=
+  SF.Props.UbjDec.reader_chunking_independent f hf cs₁ cs₂ e₁ e₂ n₁ n₂ hn₁ hn₂ h n hno₁ hno₂
+
+/-- … and it is the sequence the byte-slice decoder produces on the concatenation -/
+theorem ubj_reader_eq_bytes_decoder (f : Dec → Nat) (hf : Enough f) (cs : List Bytes) (e : Bool) (bufsize : Nat)
+    (hbs : 1 ≤ bufsize) (n : Nat)
+    (hno₁ : ∀ y ∈ nextsF f n (newDecoder cs e bufsize), y.1 ≠ .err .outOfFuel)
+    (hno₂ : ∀ y ∈ nextsF f n (newBytesDecoder cs.flatten), y.1 ≠ .err .outOfFuel) :
+    nextsF f n (newDecoder cs e bufsize) = nextsF f n (newBytesDecoder cs.flatten) :=
+  SF.Props.UbjDec.reader_eq_bytes_decoder f hf cs e bufsize hbs n hno₁ hno₂
+
+/-- non-vacuity: `N [#i 2 Z T` `i 5` `N` as a byte slice; a truncated stream in reads that cut the
+array header, `io.EOF` with the data and after it -/
+example :
+    nexts 3 (newBytesDecoder [0x4e, 0x5b, 0x23, 0x69, 0x02, 0x5a, 0x54, 0x69, 0x05, 0x4e]) =
+      [(.ok, [.arrStart 2 BT.any, .null, .bool true, .arrEnd]),
+       (.ok, [.arrStart 2 BT.any, .null, .bool true, .arrEnd, .num .i8 5]),
+       (.eof, [.arrStart 2 BT.any, .null, .bool true, .arrEnd, .num .i8 5])] ∧
+    nexts 2 (newDecoder [[0x5a, 0x5b, 0x23], [], [0x69, 0x02, 0x5a, 0x53], [0x69, 0x02]] true 3) =
+      [(.ok, [.null]), (.err .incomplete, [.null, .arrStart 2 BT.any, .null])] ∧
+    nexts 2 (newDecoder [[0x5a, 0x5b, 0x23], [], [0x69, 0x02, 0x5a]] false 3) =
+      [(.ok, [.null]), (.err .missingArrEnd, [.null, .arrStart 2 BT.any, .null])] := by
+  decide +kernel
+
+end SF.PropsUbjD.C18
+
+/-! ## JSON decoder (mirror SF/Json/Dec.lean; proofs SF/Proofs/JsonDec{Eff,Until,Peel,Doc,Trunc,Next,Reader,Top}.lean)
+
+No side condition beyond the documents being grammatical (`Doc.good`). -/
+
+namespace SF.PropsJsonD.C18
+open SF SF.Json SF.Json.Parse SF.Json.ParseP SF.Json.Dec SF.Json.DecP SF.Json.Grammar
+open SF.Props.JsonDec (okDocs)
+
+/-- C18 for the JSON BYTE-SLICE decoder: for EVERY stream of good documents (leading white space
+allowed; each value followed by white space, at least one white-space byte after a bare number):
+one successful call per document with exactly its events, then `.eof` -/
+theorem json_bytes_decoder_stream (f : Dec → Nat) (hf : Enough f) (ds : List Doc) (hg : ∀ x ∈ ds, x.good)
+    (ws0 : Bytes) (hws : allWs ws0 = true) :
+    nextsF f (ds.length + 1) (newBytesDecoder (ws0 ++ streamWire ds)) =
+      okDocs ds ++ [(NextRes.eof, streamEvents ds)] :=
+  SF.Props.JsonDec.bytes_decoder_stream f hf ds hg ws0 hws
+
+/-- C18 for the READER-DRIVEN JSON decoder: EVERY read script (chunks of any sizes, `(0, nil)` reads
+anywhere), BOTH ways the end is signalled, EVERY buffer size: the same trace -/
+theorem json_reader_decoder_stream (f : Dec → Nat) (hf : Enough f) (ds : List Doc) (hg : ∀ x ∈ ds, x.good)
+    (ws0 : Bytes) (hws : allWs ws0 = true) (cs : List Bytes) (e : Bool) (n : Int)
+    (hcs : cs.flatten = ws0 ++ streamWire ds) :
+    nextsF f (ds.length + 1) (newDecoder { chunks := cs, lastEOF := e } n) =
+      okDocs ds ++ [(NextRes.eof, streamEvents ds)] :=
+  SF.Props.JsonDec.reader_decoder_stream f hf ds hg ws0 hws cs e n hcs
+
+/-- … the stream ending in a bare number with NO white space after it, the number possibly split
+across reads: `.ok` for it once the end of the script has been seen, then `.eof` -/
+theorem json_reader_decoder_stream_num_end (f : Dec → Nat) (hf : Enough f) (ds : List Doc) (hg : ∀ x ∈ ds, x.good)
+    (ws0 : Bytes) (hws : allWs ws0 = true) (tok : Bytes) (hb : tokOk tok = true) (ev : Ev)
+    (hev : numEv tok = some ev) (cs : List Bytes) (e : Bool) (n : Int)
+    (hcs : cs.flatten = ws0 ++ (streamWire ds ++ tok)) :
+    nextsF f (ds.length + 2) (newDecoder { chunks := cs, lastEOF := e } n) =
+      okDocs ds ++ [(NextRes.ok, streamEvents ds ++ [ev]), (NextRes.eof, streamEvents ds ++ [ev])] :=
+  SF.Props.JsonDec.reader_decoder_stream_num_end f hf ds hg ws0 hws tok hb ev hev cs e n hcs
+
+theorem json_enough_nextFuel : Enough nextFuel := SF.Props.JsonDec.enough_nextFuel
+
+/-- C18, TRUNCATION: good documents followed — after white space — by a proper non-empty prefix of
+the text of one more grammatical value that is not a bare number (a bare number cut short IS the
+shorter number): after `ds.length` successful calls the next call returns an ERROR -/
+theorem json_reader_decoder_truncated (f : Dec → Nat) (hf : Enough f) (ds : List Doc) (hg : ∀ x ∈ ds, x.good)
+    (ws0 : Bytes) (hws : allWs ws0 = true) (v : J) (hok : v.ok = true)
+    (hnn : v.isNum = false) (z : Bytes) (hz : z <+: v.wire) (hne : z ≠ []) (hne2 : z ≠ v.wire)
+    (cs : List Bytes) (e : Bool) (n : Int) (hcs : cs.flatten = ws0 ++ (streamWire ds ++ z)) :
+    ∃ err more, nextsF f (ds.length + 1) (newDecoder { chunks := cs, lastEOF := e } n) =
+      okDocs ds ++ [(NextRes.err err, streamEvents ds ++ more)] :=
+  SF.Props.JsonDec.reader_decoder_truncated f hf ds hg ws0 hws v hok hnn z hz hne hne2 cs e n hcs
+
+/-- on ARBITRARY bytes in ANY read script no call reports `outOfFuel` (the loop of `Decoder.Next`
+always terminates) or `panic` -/
+theorem json_reader_never_outOfFuel (f : Dec → Nat) (hf : Enough f) (cs : List Bytes) (e : Bool) (n : Int) (k : Nat) :
+    ∀ x ∈ nextsF f k (newDecoder { chunks := cs, lastEOF := e } n),
+      x.1 ≠ .err .outOfFuel ∧ x.1 ≠ .err .panic :=
+  SF.Props.JsonDec.reader_never_outOfFuel f hf cs e n k
+
+/-- READ SIZES DO NOT MATTER, for ARBITRARY bytes: any two read scripts with the same concatenation,
+either way of signalling the end, any two buffer sizes, any two sufficient fuels: the same trace -/
+theorem json_reader_chunking_independent (f₁ f₂ : Dec → Nat) (hf₁ : Enough f₁) (hf₂ : Enough f₂)
+    (cs₁ cs₂ : List Bytes) (e₁ e₂ : Bool) (n₁ n₂ : Int) (h : cs₁.flatten = cs₂.flatten) (k : Nat) :
+    nextsF f₁ k (newDecoder { chunks := cs₁, lastEOF := e₁ } n₁) =
+      nextsF f₂ k (newDecoder { chunks := cs₂, lastEOF := e₂ } n₂) :=
+  SF.Props.JsonDec.reader_chunking_independent f₁ f₂ hf₁ hf₂ cs₁ cs₂ e₁ e₂ n₁ n₂ h k
+
+/-- … and it is the sequence the byte-slice decoder produces on the concatenation -/
+theorem json_reader_eq_bytes_decoder (f₁ f₂ : Dec → Nat) (hf₁ : Enough f₁) (hf₂ : Enough f₂)
+    (cs : List Bytes) (e : Bool) (n : Int) (k : Nat) :
+    nextsF f₁ k (newDecoder { chunks := cs, lastEOF := e } n) = nextsF f₂ k (newBytesDecoder cs.flatten) :=
+  SF.Props.JsonDec.reader_eq_bytes_decoder f₁ f₂ hf₁ hf₂ cs e n k
+
+/-- non-vacuity: ` [1] 23` in four reads (an empty one among them, the number split) = the byte
+slice: `[1]`, then `23` at the end of the input, then EOF -/
+example :
+    nexts 3 (newDecoder { chunks := [[0x20, 0x5b, 0x31, 0x5d], [0x20, 0x32], [], [0x33]], lastEOF := false } 0) =
+      nexts 3 (newBytesDecoder [0x20, 0x5b, 0x31, 0x5d, 0x20, 0x32, 0x33]) ∧
+    nexts 3 (newBytesDecoder [0x20, 0x5b, 0x31, 0x5d, 0x20, 0x32, 0x33]) =
+      [(.ok, [.arrStart (-1) BT.any, .num .i64 1, .arrEnd]),
+       (.ok, [.arrStart (-1) BT.any, .num .i64 1, .arrEnd, .num .i64 23]),
+       (.eof, [.arrStart (-1) BT.any, .num .i64 1, .arrEnd, .num .i64 23])] := by
+  decide +kernel
+
+end SF.PropsJsonD.C18
